@@ -309,7 +309,19 @@ func (g *vcgen) lin(v ssa.Value) string {
 				}
 			}
 			return a
+		case token.QUO:
+			// unsigned x / c: the floor (x is non-negative)
+			if c, ok := constInt(x.Y); ok && c > 0 {
+				if _, xu, _ := intInfo(x.X.Type()); xu {
+					return "(" + g.lin(x.X) + " / " + lit(c) + ")"
+				}
+			}
 		case token.REM:
+			if c, ok := constInt(x.Y); ok && c > 0 {
+				if _, xu, _ := intInfo(x.X.Type()); xu {
+					return "(" + g.lin(x.X) + " % " + lit(c) + ")"
+				}
+			}
 			a := g.atom(v)
 			if c, ok := constInt(x.Y); ok && c > 0 {
 				if _, xu, _ := intInfo(x.X.Type()); xu {
@@ -350,6 +362,18 @@ func (g *vcgen) lin(v ssa.Value) string {
 		return g.atom(v)
 	case *ssa.ChangeType:
 		return g.lin(x.X)
+	case *ssa.Extract:
+		// n, err := hex.Decode(dst, src): 0 ≤ n ≤ len(dst), n ≤ len(src)/2;  n := copy-like library results
+		if call, ok := x.Tuple.(*ssa.Call); ok && x.Index == 0 {
+			if f := call.Call.StaticCallee(); f != nil && f.Pkg != nil && f.Pkg.Pkg.Path() == "encoding/hex" && f.Name() == "Decode" && len(call.Call.Args) == 2 {
+				a := g.atom(v)
+				g.hyp("0 ≤ " + a)
+				g.hyp(a + " ≤ " + g.lenOf(call.Call.Args[0]))
+				g.hyp("2 * " + a + " ≤ " + g.lenOf(call.Call.Args[1]))
+				return a
+			}
+		}
+		return g.atom(v)
 	case *ssa.UnOp:
 		// an integer loaded from a table (array / struct / array of structs, local or package-level) into which nothing but
 		// integer constants is ever stored: the value lies between the smallest and the largest of them (0 included: untouched
@@ -395,6 +419,14 @@ func (g *vcgen) lin(v ssa.Value) string {
 			g.hyp(a + " ≤ " + g.lenOf(x.Call.Args[0]))
 			g.hyp(a + " ≤ " + g.lenOf(x.Call.Args[1]))
 			return a
+		}
+		if f := x.Call.StaticCallee(); f != nil && f.Pkg != nil && f.Pkg.Pkg.Path() == "encoding/hex" && len(x.Call.Args) == 1 {
+			switch f.Name() {
+			case "DecodedLen":
+				return "(" + g.lin(x.Call.Args[0]) + " / 2)"
+			case "EncodedLen":
+				return "(2 * " + g.lin(x.Call.Args[0]) + ")"
+			}
 		}
 		// sort.Search(n, f) ∈ 0..n; sort.SearchStrings / SearchInts(a, x) ∈ 0..len(a); slices.BinarySearch*(a, x) ∈ 0..len(a)
 		if f := x.Call.StaticCallee(); f != nil && f.Pkg != nil && len(x.Call.Args) >= 2 {
@@ -689,6 +721,24 @@ func (g *vcgen) capOf(v ssa.Value) string {
 	if ms, ok := v.(*ssa.MakeSlice); ok {
 		if ms.Cap == nil || ms.Cap == ms.Len {
 			return g.lin(ms.Len)
+		}
+	}
+	if sl, ok := v.(*ssa.Slice); ok && sl.Max == nil {
+		// cap(x[lo:hi]) = cap(x) - lo (for an array or pointer to array: its length - lo)
+		if _, isStr := sl.X.Type().Underlying().(*types.Basic); !isStr {
+			lo := "0"
+			if sl.Low != nil {
+				lo = g.lin(sl.Low)
+			}
+			base := ""
+			if n, ok := arrayLen(sl.X.Type()); ok {
+				base = lit(n)
+			} else if _, isSl := sl.X.Type().Underlying().(*types.Slice); isSl {
+				base = g.capOf(sl.X)
+			}
+			if base != "" {
+				return "(" + base + " - " + lo + ")"
+			}
 		}
 	}
 	caps := g.caps
